@@ -7,15 +7,35 @@ pub fn read_message<R: Read>(r: &mut R) -> Result<Message, RepeError> {
     let mut hdr_buf = [0u8; HEADER_SIZE];
     read_exact(r, &mut hdr_buf)?;
     let header = Header::decode(&hdr_buf)?;
-    let mut query = vec![0u8; header.query_length as usize];
+    let mut query = zeroed_vec(header.query_length as usize)?;
     if !query.is_empty() {
         read_exact(r, &mut query)?;
     }
-    let mut body = vec![0u8; header.body_length as usize];
+    let mut body = zeroed_vec(header.body_length as usize)?;
     if !body.is_empty() {
         read_exact(r, &mut body)?;
     }
     Message::new(header, query, body)
+}
+
+/// Zeroed buffer for a length declared by the peer. A size that can never be
+/// allocated is reported as an I/O error instead of panicking ("capacity
+/// overflow") or aborting the process (allocation failure).
+pub(crate) fn zeroed_vec(len: usize) -> Result<Vec<u8>, RepeError> {
+    let mut v = Vec::new();
+    reserve_declared(&mut v, len)?;
+    v.resize(len, 0);
+    Ok(v)
+}
+
+/// Fallibly make room for `additional` more bytes declared by the peer.
+pub(crate) fn reserve_declared(buf: &mut Vec<u8>, additional: usize) -> Result<(), RepeError> {
+    buf.try_reserve_exact(additional).map_err(|_| {
+        RepeError::Io(std::io::Error::new(
+            std::io::ErrorKind::OutOfMemory,
+            "declared frame size cannot be allocated",
+        ))
+    })
 }
 
 /// Read a full REPE message frame into `buf`, reusing its allocation across
@@ -35,6 +55,7 @@ pub fn read_message_into<R: Read>(r: &mut R, buf: &mut Vec<u8>) -> Result<(), Re
     read_exact(r, &mut buf[..HEADER_SIZE])?;
     let header = Header::decode(&buf[..HEADER_SIZE])?;
     let total = HEADER_SIZE + header.query_length as usize + header.body_length as usize;
+    reserve_declared(buf, total - HEADER_SIZE)?;
     buf.resize(total, 0);
     read_exact(r, &mut buf[HEADER_SIZE..total])?;
     Ok(())
